@@ -24,7 +24,7 @@ package engine
 //@   requires typing: dmap(d)[boxed(global("github.com/uber-go/gopatch/internal/engine.fileMatchKey"))] != nil ==> wfFileMatch(dmap(d)[boxed(global("github.com/uber-go/gopatch/internal/engine.fileMatchKey"))])
 //@   requires recorded-slots-are-current: restructured == noneRestructured()
 //@   at call (engine.FileReplacer).Replace set replFail = replFail + ite(result1 != nil, 1, 0)
-//@   assigns group(ast), replFail, sitesReplaced, restructured, inspections, importFailures
+//@   assigns group(ast), replFail, sitesReplaced, restructured, inspections, importFailures, importsDeleted
 //@   ensures err == nil ==> f != nil && replFail == old(replFail)
 //@   ensures err != nil ==> replFail == old(replFail) + 1
 //@   ensures [C09] the-matched-file-object-is-returned: err == nil ==> f == matchedFile(dmap(d))
@@ -432,6 +432,7 @@ package engine
 //@   unfold-post imOK(m, file, dmap(d)) == ok && (ok ==> imD(m, file, dmap(d)) == dmap(d1))
 //@   ensures ok == imOK(m, file, dmap(d)) && (ok ==> dmap(d1) == imD(m, file, dmap(d)))
 //@   ensures [C10] path-not-imported: ret("goast.FindImportSpec", 0) == nil ==> !ok
+//@   ensures [C05,C11] an-unnamed-guard-records-nothing-about-the-import: m.Name == nil ==> d1 == d
 //@   ensures [C10] any-unnamed-import-of-the-path-suffices: m.Name == nil && (exists i int :: 0 <= i && i < len(file.Imports) && unquoted(file.Imports[i].Path.Value) == m.Path && file.Imports[i].Name == nil) ==> ok
 //@   ensures [C10] unnamed-matches-only-unnamed: ret("goast.FindImportSpec", 0) != nil && m.Name == nil ==> (ok <==> ret("goast.FindImportSpec", 0).Name == nil)
 //@   ensures [C10] literal-name-does-not-match-unnamed: ret("goast.FindImportSpec", 0) != nil && m.Name != nil && ret("goast.FindImportSpec", 0).Name == nil && !m.NameIsMetavar ==> !ok
@@ -525,11 +526,11 @@ package engine
 //@   loop 0
 //@     invariant len(c.errors) == old(len(c.errors)) + (metaErrors - old(metaErrors)) && metaErrors >= old(metaErrors)
 //@     invariant c.errors.arr == old(c.errors.arr) || fresh(c.errors.arr)
-//@     invariant forall k string {has(vars, k)} :: has(vars, k) ==> (vars[k] == 1 || vars[k] == 2) && k != "_" && has(declPos, k)
+//@     invariant [C02,C06,C09,C11,C13] every-entry-of-the-table-was-declared-in-this-very-section: forall k string {has(vars, k)} :: has(vars, k) ==> (vars[k] == 1 || vars[k] == 2) && k != "_" && has(declPos, k)
 //@   loop 1
 //@     invariant len(c.errors) == old(len(c.errors)) + (metaErrors - old(metaErrors)) && metaErrors >= old(metaErrors)
 //@     invariant c.errors.arr == old(c.errors.arr) || fresh(c.errors.arr)
-//@     invariant forall k string {has(vars, k)} :: has(vars, k) ==> (vars[k] == 1 || vars[k] == 2) && k != "_" && has(declPos, k)
+//@     invariant [C02,C06,C09,C11,C13] every-entry-of-the-table-was-declared-in-this-very-section: forall k string {has(vars, k)} :: has(vars, k) ==> (vars[k] == 1 || vars[k] == 2) && k != "_" && has(declPos, k)
 //@     invariant t == 1 || t == 2
 
 // An identifier of the '-' pattern: a declared metavariable becomes a MetavarMatcher of its kind,
@@ -933,7 +934,7 @@ package engine
 //@   requires recorded-slots-are-current: restructured == noneRestructured()
 //@   at call engine.Replacer.Replace set sitesReplaced = sitesReplaced + 1
 //@   at call (reflect.Value).Set assert [C03,C05] the-slot-written-is-the-slot-that-matched: m.index >= 0 ==> !restructured[m.parent]
-//@   assigns group(ast), sitesReplaced, restructured, inspections, importFailures
+//@   assigns group(ast), sitesReplaced, restructured, inspections, importFailures, importsDeleted
 //@   ensures [C03] every-recorded-site-is-processed: err == nil ==> sitesReplaced == old(sitesReplaced) + len(fd.Matches)
 //@   ensures [C06,C09] the-matched-file-object-is-returned: err == nil ==> file == matchedFile(dmap(d))
 //@   ensures [C09] never-another-file: file == nil || file == matchedFile(dmap(d))
@@ -1041,15 +1042,19 @@ package engine
 //@   at call golang.org/x/tools/go/ast/astutil.DeleteNamedImport assert [C11] only-if-replaced-or-unused: replaced || !ret("engine.usesNameAsTopLevel", 0)
 //@   at call engine.usesNameAsTopLevel assert [C11] usage-is-checked-under-this-imports-own-package-name: dmap(d)[boxed(as("github.com/uber-go/gopatch/internal/engine.importKey", imp))] == nil ==> arg1 == pathBase(imp)
 //@   requires typing: declsEndSafe(f)
+//@   at call golang.org/x/tools/go/ast/astutil.DeleteNamedImport set importsDeleted = importsDeleted + ite(result0, 1, 0)
 //@   ensures [C07,C08] every-declaration-group-can-still-tell-where-it-ends: declsEndSafe(f)
-//@   assigns group(ast), restructured, inspections, importFailures
+//@   ensures [C10,C11] without-a-deletion-the-files-import-list-is-as-it-was: importsDeleted == old(importsDeleted) ==> f.Imports == old(f.Imports) || (len(old(f.Imports)) == 0 && len(f.Imports) == 0)
+//@   assigns group(ast), restructured, inspections, importFailures, importsDeleted
 //@   loop 0
 //@     invariant taken != nil
 //@   loop 1
 //@     invariant taken != nil
 //@     invariant declsEndSafe(f)
+//@     invariant [C10,C11] importsDeleted >= old(importsDeleted) && (importsDeleted == old(importsDeleted) ==> f.Imports == old(f.Imports))
 //@   loop 2
 //@     invariant [C07,C08] parentheses-are-dropped-only-around-a-single-import: declsEndSafe(f)
+//@     invariant [C10,C11] importsDeleted >= old(importsDeleted) && (importsDeleted == old(importsDeleted) ==> f.Imports == old(f.Imports))
 
 //@ func usesNameAsTopLevel(f, name) (used)
 //@   at call go/ast.Inspect assert [C09,C11,C14] the-file-as-it-is-now-is-searched: arg0 == boxed(f)
